@@ -409,7 +409,8 @@ def serverRecordsChain (s : Nat) : Option Bool := serverRecordsChainCond.eval s
     (`none` = no certificate chain).  `includeSuites` is a Python set: it is modelled by its
     membership predicate (`update` = or, `symmetric_difference_update` = xor). -/
 def certIncludes (certAlg : Option CertAlg) (s : Nat) : Bool :=
-  let inc := isIn s tls13Suites
+  -- (the SRP suites without server authentication are admitted with or without a chain)
+  let inc := isIn s tls13Suites || isIn s srpSuites
   match certAlg with
   | some alg =>
     let inc := if alg == .rsa || alg == .rsaPss then inc || isIn s certAllSuites else inc
@@ -417,7 +418,7 @@ def certIncludes (certAlg : Option CertAlg) (s : Nat) : Bool :=
     let inc := if alg == .ecdsa || alg == .ed25519 || alg == .ed448 then inc || isIn s ecdheEcdsaSuites else inc
     let inc := if alg == .dsa then inc || isIn s dheDsaSuites else inc
     inc
-  | none => inc || isIn s srpSuites || isIn s anonSuites || isIn s ecdhAnonSuites
+  | none => inc || isIn s anonSuites || isIn s ecdhAnonSuites
 
 def filterForCertificate (suites : List Nat) (certAlg : Option CertAlg) : List Nat :=
   suites.filter (certIncludes certAlg)
@@ -654,7 +655,8 @@ structure Obs where
   certified : Bool
   /-- a ServerKeyExchange message is part of the handshake -/
   ske : Bool
-  /-- credentials with which the server will pick this suite -/
+  /-- certificate kinds that authenticate the suite (`[noCert]`: none is sent, and the suite is admitted
+      without a chain) -/
   certKinds : List CertKind
   cipher : Cipher
   keyLen : Nat
@@ -791,7 +793,12 @@ def modelObs (s : Nat) (v : Ver) (r : Role) : Option Obs := do
           let k := kexOfClass cls
           some (k, cert, k != .rsa)
   some { kex := kex, certified := certified, ske := ske,
-         certKinds := modelCertKinds s,
+         -- what authenticates the suite: when a Certificate is sent, the certificate kinds
+         -- filter_for_certificate admits the suite with (and it must not be admitted without one);
+         -- when none is sent, only that it is admitted without a chain — a chain the server also
+         -- holds is not used on the wire, so admission alongside one says nothing about the suite
+         certKinds := if certified then modelCertKinds s
+                      else (modelCertKinds s).filter (· == .noCert),
          cipher := ciph, keyLen := cs.keyLength, mode := mode, ivLen := ivLen,
          mac := mac, macLen := macLen, tagLen := tag, prf := prf, prfKeyUpdate := ku,
          sessionCipherName := canonicalCipherName s,
